@@ -59,12 +59,13 @@ def write_services(root, shapes):
     return man
 
 
-def gen_cfg(reqs, bad, shapes, evict, depth=24, defects=()):
+def gen_cfg(reqs, bad, shapes, evict, depth=24, defects=(), evicting_only=True):
     def tset(xs):
         return "{" + ", ".join('"%s"' % x for x in xs) + "}"
     return ("SPECIFICATION GenSpec\nCONSTANTS\n  Reqs = %s\n  Bad = %s\n  Shapes = {%s}\n  MaxEvict = %d\n"
-            "  Defects = %s\n  Lock = TRUE\n  Depth = %d\nINVARIANTS Emit\nCHECK_DEADLOCK FALSE\n"
-            % (tset(reqs), tset(bad), ", ".join(tset(sorted(s)) for s in shapes), evict, tset(defects), depth))
+            "  Defects = %s\n  Lock = TRUE\n  Depth = %d\n  EvictingOnly = %s\nINVARIANTS Emit\nCHECK_DEADLOCK FALSE\n"
+            % (tset(reqs), tset(bad), ", ".join(tset(sorted(s)) for s in shapes), evict, tset(defects), depth,
+               "TRUE" if evicting_only else "FALSE"))
 
 
 ALLKEYS = ["parm", "body", "user", "hdr", "partmap", "partvar", "pkg", "loc", "arr", "mp", "rec", "fn"]
@@ -185,9 +186,9 @@ def run():
             f_mc2 = ex.submit(vf.tlc, SPEC, SPEC, SPEC + "_MC2.cfg", sd, workers=W, timeout=4000) if thorough else None
             f_neg = {d: ex.submit(vf.tlc, SPEC, SPEC, SPEC + "_MC_%s.cfg" % d, sd, workers=2, timeout=2000)
                      for d in ("parts", "unsaved", "unlock")}
-            f_gen = [ex.submit(behaviours, chk, sd, gen_cfg(["r1", "r2", "r3"], bad, shapes, ev), "gen simulate %d" % i,
+            f_gen = [ex.submit(behaviours, chk, sd, gen_cfg(["r1", "r2", "r3"], bad, shapes, ev, evicting_only=(i == 0)), "gen simulate %d" % i,
                                "num=%d" % num, vf.SEED * 10 + i) for i, (bad, shapes, num, ev) in enumerate(sims)]
-            f_ex = ex.submit(behaviours, chk, sd, gen_cfg(["r1", "r2"], ["r2"], [SHAPES[1]], 1), "gen exhaustive 2 requests") if thorough else None
+            f_ex = ex.submit(behaviours, chk, sd, gen_cfg(["r1", "r2"], ["r2"], [SHAPES[1]], 2, depth=30, evicting_only=False), "gen exhaustive 2 requests") if thorough else None
             # T driver starts right away (it needs nothing from TLC)
             f_conc = ex.submit(concurrent, ov, sd, root, 48 if thorough else 8, 48 if thorough else 16)
             # 1. the repaired design satisfies C42 (exhaustive at the stated bound)
@@ -208,6 +209,20 @@ def run():
                 chk.cov["exhaustive_2req"] = len(behs)
             for f in f_gen:
                 behs += f.result()
+            # vacuity guard: the behaviours contain requests that finish after the route went back to first use
+            # (counter reset by an eviction while they were in flight) and requests that waited on the first-use lock
+            strag = waited = 0
+            for b in behs:
+                prev = {"counter": 0, "locked": False}
+                for s in b["steps"]:
+                    if s["call"]["act"] == "Leave" and prev["counter"] == 0 and not prev["locked"]:
+                        strag += 1
+                    if s["call"]["reply"] == "waiting":
+                        waited += 1
+                    prev = s["st"]["route"]
+            chk.cov["replay_straggler_leaves"], chk.cov["replay_waiting_arrivals"] = strag, waited
+            if strag == 0 or waited == 0:
+                raise vf.NoVerdict("generated behaviours too weak: %d straggler leaves, %d waiting arrivals" % (strag, waited))
             # the last behaviour handed to the harness is the binding self-test (R): a copy of a generated behaviour
             # with one perturbed expected value, which must be reported as a mismatch
             rng = random.Random(vf.SEED)
